@@ -932,7 +932,7 @@ def run(ctx):
     nontrivial, first, classes, seen_sig = set(), {}, {}, {}
     labels = {}
     comp = {"queries": 0, "inside_the_hypotheses_of_composed_is_flat_model": 0, "directory_walk_pruned_some_file": 0,
-            "outside_C01_hypotheses": 0, "window_leaves_datetime_or_lookback": 0}
+            "outside_C01_hypotheses": 0, "window_leaves_datetime": 0}
     choice = {"implementation_is_the_models_choice": 0, "another_allowed_file": 0, "several_allowed": 0}
     forms, seen_q = {}, set()
     for rec in records:
@@ -947,7 +947,7 @@ def run(ctx):
                 if not rec["thead"][2]:
                     comp["outside_C01_hypotheses"] += 1
                 elif not win_ok:
-                    comp["window_leaves_datetime_or_lookback"] += 1
+                    comp["window_leaves_datetime"] += 1
                 elif t_agrees and rec["hyp"]:
                     comp["inside_the_hypotheses_of_composed_is_flat_model"] += 1
                     if t_visited < len(tree["files"]):
